@@ -108,6 +108,7 @@ type M struct {
 	AsIs          bool
 	hostActivated map[string]bool
 	boundaryFired map[string]bool
+	rootFired     map[string]bool // start events fired so far (StartOnly)
 }
 
 // New creates the model for a program with initial variables.
@@ -148,6 +149,42 @@ func (m *M) kill(t *Token) {
 func (m *M) Start() Obs {
 	m.obs = &Obs{}
 	m.startScope(m.Root)
+	m.run()
+	return m.finish()
+}
+
+// StartOnly fires the named start events of the root process only (the
+// public API allows triggering start events one by one). The instance cannot
+// be complete before every start event has fired.
+func (m *M) StartOnly(ids []string) Obs {
+	m.obs = &Obs{}
+	s := m.Root
+	if m.rootFired == nil {
+		m.rootFired = map[string]bool{}
+	}
+	type st struct {
+		t *Token
+		n *gen.Node
+	}
+	var starts []st
+	for _, id := range ids {
+		n := s.G.Node(id)
+		if n == nil || n.Kind != gen.KStart || m.rootFired[id] {
+			continue
+		}
+		m.rootFired[id] = true
+		starts = append(starts, st{m.newToken(s, "", n.ID), n})
+	}
+	all := true
+	for _, n := range s.G.Nodes {
+		if n.Kind == gen.KStart && !m.rootFired[n.ID] {
+			all = false
+		}
+	}
+	s.started = all
+	for _, x := range starts {
+		m.leave(x.t, x.n)
+	}
 	m.run()
 	return m.finish()
 }
